@@ -10,7 +10,9 @@ use crate::plumbing::ZalsaLocal;
 use crate::sync::thread;
 use crate::tracked_struct::Identity;
 use crate::zalsa::{MemoIngredientIndex, Zalsa};
-use crate::zalsa_local::{ActiveQueryGuard, QueryEdge, QueryEdgeKind, QueryRevisions};
+use crate::zalsa_local::{
+    ActiveQueryGuard, QueryEdge, QueryEdgeKind, QueryOriginRef, QueryRevisions,
+};
 use crate::{Cancelled, Cycle, tracing};
 use crate::{DatabaseKeyIndex, Event, EventKind, Id};
 
@@ -90,6 +92,17 @@ where
                 &mut completed_query.revisions,
                 &new_value,
             );
+
+            // A value that was specified by another query is not a function of this query's
+            // own inputs. Replacing it with a different, computed value is a change that none
+            // of those inputs account for, so dependents must see it as changed now.
+            if matches!(old_memo.header.origin(), QueryOriginRef::Assigned(_))
+                && !old_memo
+                    .value()
+                    .is_some_and(|old_value| C::values_equal(old_value, &new_value))
+            {
+                completed_query.revisions.changed_at = zalsa.current_revision();
+            }
 
             // Diff the new outputs with the old, to discard any no-longer-emitted
             // outputs and update the tracked struct IDs for seeding the next revision.
